@@ -956,6 +956,63 @@ func c05Levels(tier string) []core.Level {
 			}
 		}})
 	}
+	if thorough(tier) {
+		idx := func(op string) int {
+			for i, o := range c05BinOps {
+				if o == op {
+					return i
+				}
+			}
+			return 0
+		}
+		lv = append(lv, core.Level{Name: "depth 3 over 12 operators and 6 operands (three shapes)", Gen: func(emit func(core.Case)) {
+			sel := []int{0, 2, 4, 12, 18, 26}
+			for _, a1 := range c05CoreOps {
+				for _, a2 := range c05CoreOps {
+					for _, a3 := range c05CoreOps {
+						o1, o2, o3 := idx(a1), idx(a2), idx(a3)
+						for _, a := range sel {
+							for _, b := range sel {
+								for _, c := range sel {
+									for _, d := range sel {
+										emit(core.Case{Fam: "term", N: []int{1, o3, 1, o2, 1, o1, 0, a, 0, b, 0, c, 0, d}})
+										emit(core.Case{Fam: "term", N: []int{1, o1, 0, a, 1, o2, 0, b, 1, o3, 0, c, 0, d}})
+										emit(core.Case{Fam: "term", N: []int{1, o2, 1, o1, 0, a, 0, b, 1, o3, 0, c, 0, d}})
+									}
+								}
+							}
+						}
+					}
+				}
+			}
+		}})
+		lv = append(lv, core.Level{Name: "depth 4 over 6 operators and 4 operands (left-nested, right-nested, balanced-left, balanced-right)", Gen: func(emit func(core.Case)) {
+			ops := []int{0, 1, 2, 3, 7, 8}
+			sel := []int{2, 4, 12, 18}
+			for _, o1 := range ops {
+				for _, o2 := range ops {
+					for _, o3 := range ops {
+						for _, o4 := range ops {
+							for _, a := range sel {
+								for _, b := range sel {
+									for _, c := range sel {
+										for _, d := range sel {
+											for _, e := range sel {
+												emit(core.Case{Fam: "term", N: []int{1, o4, 1, o3, 1, o2, 1, o1, 0, a, 0, b, 0, c, 0, d, 0, e}})
+												emit(core.Case{Fam: "term", N: []int{1, o1, 0, a, 1, o2, 0, b, 1, o3, 0, c, 1, o4, 0, d, 0, e}})
+												emit(core.Case{Fam: "term", N: []int{1, o3, 1, o2, 1, o1, 0, a, 0, b, 0, c, 1, o4, 0, d, 0, e}})
+												emit(core.Case{Fam: "term", N: []int{1, o2, 1, o1, 0, a, 0, b, 1, o4, 1, o3, 0, c, 0, d, 0, e}})
+											}
+										}
+									}
+								}
+							}
+						}
+					}
+				}
+			}
+		}})
+	}
 	return lv
 }
 
@@ -963,7 +1020,7 @@ func init() {
 	core.Register(&core.Check{
 		ID:       "C05",
 		Category: "exploration",
-		Rule: "expression terms over 20 operand values (0 1 2 3 7 -1 0.5 2.25 '' 'a' 'ab' 'b' '3' true false null [1,2] ['a'] [] {'k':1}), each as a literal and as a variable bound to a Go value of varying numeric type: every operand alone, under every unary operator and in array / hash literal and .k / [k] / .0 access forms; every binary operator over every operand pair; the conditional over 8^3 operands; interpolation with 0-2 holes; depth 2 over 12 operators x 8 operands in both shapes, depth 3 over 6 operators x 5 operands in three shapes; " +
+		Rule: "expression terms over 20 operand values (0 1 2 3 7 -1 0.5 2.25 '' 'a' 'ab' 'b' '3' true false null [1,2] ['a'] [] {'k':1}), each as a literal and as a variable bound to a Go value of varying numeric type: every operand alone, under every unary operator and in array / hash literal and .k / [k] / .0 access forms; every binary operator over every operand pair; the conditional over 8^3 operands; interpolation with 0-2 holes; depth 2 over 12 operators x 8 operands in both shapes, depth 3 over 6 operators x 5 operands in three shapes (thorough: depth 3 over 12 x 6, depth 4 over 6 x 4 in four shapes); " +
 			"callback expressions f(e..), e|g(e..), e is t(e..) with <= 3 arguments that are literals, recording calls or filtered recording calls, also inside operators, arrays, conditionals and interpolation; every callback expression is evaluated alone, after a warm-up print that already called a function and a filter with three arguments, and in two consecutive loop iterations (state carried inside one execution). " +
 			"Oracle: a reference evaluator defined only where stick's documented coercions and Twig agree (other cases skipped by reason); rendered value and recorded call log (name, evaluated arguments, order, exactly once) must match. distinct = distinct term; non-trivial = inside the comparison region",
 		Assumptions: []string{
